@@ -409,6 +409,15 @@ func (f *flow) Start(ctx context.Context) {
 							for _, handle := range flowHandlers {
 								handle(ctx)
 							}
+							if !flowed {
+								// this flow's own sequence flow was not taken: only the
+								// forked flows go on, the token itself is consumed
+								f.tracer.Send(TerminationTrace{
+									FlowId: f.Id(),
+									Source: source,
+								})
+								return
+							}
 						} else {
 							// no flows to continue with, abort
 							f.tracer.Send(TerminationTrace{
